@@ -104,11 +104,17 @@ def build(flavour="O2", quiet=True):
                 o = os.path.join(bdir, "h_" + s[:-2] + ".o")
                 hobjs.append(o)
                 jobs.append([cc] + simflags + ["-I" + hdir, "-c", os.path.join(hdir, s), "-o", o])
+        cxx = "g++" if cc == "gcc" else "clang++"
+        for s in sorted(os.listdir(hdir)):
+            if s.endswith(".cc") and s.startswith("wl_"):
+                o = os.path.join(bdir, "h_" + s[:-3] + ".o")
+                hobjs.append(o)
+                jobs.append([cxx, "-std=c++11"] + [f for f in simflags if f != "-Wall"] + ["-w", "-I" + hdir, "-c", os.path.join(hdir, s), "-o", o])
         with ThreadPoolExecutor(max_workers=16) as ex:
             oks = list(ex.map(lambda c: _run(c, log), jobs))
         if not all(oks):
             raise RuntimeError("build failed:\n" + "\n".join(log)[:20000])
-        link = [cc] + oflags + ["-no-pie", "-o", os.path.join(bdir, "mvh")] + hobjs + objs + ldflags + ["-lrt", "-lpthread", "-ldl", "-lm"]
+        link = [cxx] + oflags + ["-no-pie", "-o", os.path.join(bdir, "mvh")] + hobjs + objs + ldflags + ["-lrt", "-lpthread", "-ldl", "-lm"]
         if not _run(link, log):
             raise RuntimeError("link failed:\n" + "\n".join(log)[:20000])
         open(os.path.join(bdir, ".ok"), "w").write(time.strftime("%F %T"))
